@@ -74,14 +74,16 @@ Record state := {
   regs  : list (N * reg);           (* _registered_programs *)
   awg_of : N -> awg_st;
   dac_of : N -> dac_st;
-  cblog : list N                    (* run callbacks invoked so far (most recent first) *)
+  cblog : list N;                   (* run callbacks invoked so far (most recent first) *)
+  vollog : list (N * N * list N)    (* update_parameters: (program name, parameter-set tag, generators whose
+                                       set_volatile_parameters was called), most recent first *)
 }.
 
 Definition init_state : state :=
   {| chmap := []; mmap := []; regs := [];
      awg_of := fun _ => {| a_progs := []; a_armed := None |};
      dac_of := fun _ => {| d_wins := []; d_armed := None |};
-     cblog := [] |}.
+     cblog := []; vollog := [] |}.
 
 Inductive err := ETypeError | EKeyError | EValueError | EIndexError | EOverwrite | EBadHint.
 
@@ -123,7 +125,7 @@ Definition set_channel (dm : dims) (st : state) (id : N) (a : charg) (allow : bo
         if negb allow && existsb (fun kv => set_meets sch_eqb new (snd kv)) (chmap st) then (st, Some EValueError)
         else if junk then (st, Some ETypeError)
         else ({| chmap := upsert id new (chmap st); mmap := mmap st; regs := regs st; awg_of := awg_of st;
-                 dac_of := dac_of st; cblog := cblog st |}, None)
+                 dac_of := dac_of st; cblog := cblog st; vollog := vollog st |}, None)
     end.
 
 Definition set_measurement (st : state) (name : N) (a : marg) (allow : bool) : state * option err :=
@@ -139,13 +141,13 @@ Definition set_measurement (st : state) (name : N) (a : marg) (allow : bool) : s
   | Some new =>
       if negb allow && existsb (fun kv => set_meets mask_eqb new (snd kv)) (mmap st) then (st, Some EValueError)
       else ({| chmap := chmap st; mmap := upsert name new (mmap st); regs := regs st; awg_of := awg_of st;
-               dac_of := dac_of st; cblog := cblog st |}, None)
+               dac_of := dac_of st; cblog := cblog st; vollog := vollog st |}, None)
   end.
 
 Definition rm_channel (st : state) (id : N) : state * option err :=
   if has_key id (chmap st)
   then ({| chmap := remove_key id (chmap st); mmap := mmap st; regs := regs st; awg_of := awg_of st;
-           dac_of := dac_of st; cblog := cblog st |}, None)
+           dac_of := dac_of st; cblog := cblog st; vollog := vollog st |}, None)
   else (st, Some EKeyError).
 
 (* ---------------------------------------------------------------------------------------------------------------- *)
@@ -264,7 +266,7 @@ Definition register_program (dm : dims) (st : state) (name : N) (p : prog) (cb :
               let (aw, ok) := upload_all (awg_of st) name (p_tag p) update infos awg_order in
               if negb ok then
                 ({| chmap := chmap st; mmap := mmap st; regs := regs st; awg_of := aw; dac_of := dac_of st;
-                    cblog := cblog st |}, Some EOverwrite)
+                    cblog := cblog st; vollog := vollog st |}, Some EOverwrite)
               else
                 let dc := register_dacs (dac_of st) name aff in
                 (* re-registration: devices of the old registration that dropped out forget the name *)
@@ -277,7 +279,7 @@ Definition register_program (dm : dims) (st : state) (name : N) (p : prog) (cb :
                                         old_awgs aw;
                     dac_of := fold_left (fun dc d => if memN d (keys aff) then dc else upd dc d (dac_delete (dc d) name))
                                         old_dacs dc;
-                    cblog := cblog st |}, None)
+                    cblog := cblog st; vollog := vollog st |}, None)
         end
   end.
 
@@ -292,7 +294,7 @@ Definition remove_program (st : state) (name : N) : state * option err :=
       ({| chmap := chmap st; mmap := mmap st; regs := remove_key name (regs st);
           awg_of := fold_left (fun aw a => upd aw a (awg_remove (aw a) name)) (r_awgs r) (awg_of st);
           dac_of := fold_left (fun dc d => upd dc d (dac_delete (dc d) name)) (r_dacs r) (dac_of st);
-          cblog := cblog st |}, None)
+          cblog := cblog st; vollog := vollog st |}, None)
   end.
 
 Definition known_awgs (cm : list (N * list sch)) : list N := flat_map (fun kv => map s_awg (snd kv)) cm.
@@ -303,7 +305,7 @@ Definition clear_programs (st : state) : state * option err :=
       awg_of := fold_left (fun aw a => upd aw a {| a_progs := []; a_armed := None |})   (* DummyAWG.clear *)
                           (known_awgs (chmap st)) (awg_of st);
       dac_of := fold_left (fun dc d => upd dc d {| d_wins := []; d_armed := None |}) (known_dacs (mmap st)) (dac_of st);
-      cblog := cblog st |}, None).
+      cblog := cblog st; vollog := vollog st |}, None).
 
 Definition arm_devices (st : state) (name : N) (r : reg) : state :=
   {| chmap := chmap st; mmap := mmap st; regs := regs st;
@@ -311,7 +313,7 @@ Definition arm_devices (st : state) (name : N) (r : reg) : state :=
                                                   a_armed := if memN a (r_awgs r) then Some name else None |})
                          (known_awgs (chmap st)) (awg_of st);
      dac_of := fold_left (fun dc d => upd dc d {| d_wins := d_wins (dc d); d_armed := Some name |}) (r_dacs r) (dac_of st);
-     cblog := cblog st |}.
+     cblog := cblog st; vollog := vollog st |}.
 
 Definition arm_program (st : state) (name : N) : state * option err :=
   match lookup name (regs st) with
@@ -325,7 +327,20 @@ Definition run_program (st : state) (name : N) : state * option err :=
   | Some r =>
       let st' := arm_devices st name r in
       ({| chmap := chmap st'; mmap := mmap st'; regs := regs st'; awg_of := awg_of st'; dac_of := dac_of st';
-          cblog := r_cb r :: cblog st' |}, None)
+          cblog := r_cb r :: cblog st'; vollog := vollog st' |}, None)
+  end.
+
+(* update_parameters(name, parameters): `*_, awgs, dacs = self._registered_programs[name]` (KeyError), then
+   `for awg in self.known_awgs: if awg in awgs: awg.set_volatile_parameters(name, parameters)`.
+   known_awgs is a Python set: every wired generator is visited once. *)
+Definition update_parameters (st : state) (name ptag : N) : state * option err :=
+  match lookup name (regs st) with
+  | None => (st, Some EKeyError)
+  | Some r =>
+      ({| chmap := chmap st; mmap := mmap st; regs := regs st; awg_of := awg_of st; dac_of := dac_of st;
+          cblog := cblog st;
+          vollog := (name, ptag, filter (fun a => memN a (r_awgs r)) (nodup N.eq_dec (known_awgs (chmap st))))
+                    :: vollog st |}, None)
   end.
 
 (* ---------------------------------------------------------------------------------------------------------------- *)
@@ -339,7 +354,8 @@ Inductive op :=
 | ORemove (name : N)
 | OClear
 | OArm (name : N)
-| ORun (name : N).
+| ORun (name : N)
+| OUpdateParams (name : N) (ptag : N).
 
 Definition step (dm : dims) (st : state) (o : op) : state * option err :=
   match o with
@@ -351,6 +367,7 @@ Definition step (dm : dims) (st : state) (o : op) : state * option err :=
   | OClear => clear_programs st
   | OArm name => arm_program st name
   | ORun name => run_program st name
+  | OUpdateParams name ptag => update_parameters st name ptag
   end.
 
 (* state after a history (errors are ignored here: the state component already is the state the objects are left in) *)
